@@ -439,8 +439,18 @@ func run(c Case) (v *vcore.Violation, stt stats) {
 				for _, id := range ev.URRs {
 					if u, ok := m.urrs[id]; ok {
 						nm := uint8(ev.Vals.V[0]) & 7
-						rules = append(rules, stack.RuleOp{Verb: "update", Kind: "URR", ID: id, Method: nm, MNOP: !u.MNOP, Trig: 0x02})
-						u.Method, u.MNOP = nm, !u.MNOP
+						ru := stack.RuleOp{Verb: "update", Kind: "URR", ID: id, Method: nm, MNOP: !u.MNOP, Trig: 0x02}
+						// which of the two measurement IEs the update carries (absent = unchanged)
+						switch ev.Vals.V[1] % 3 {
+						case 0:
+							u.Method, u.MNOP = nm, !u.MNOP
+						case 1:
+							ru.NoInfo = true
+							u.Method = nm
+						default:
+							ru.NoMeas = true
+						}
+						rules = append(rules, ru)
 						// the periodic registration made at creation stays (C03's known finding); the tick model keeps u.Perio
 						m.urrs[id] = u
 					}
